@@ -67,6 +67,7 @@ def run(ctx, rep):
     record_shapes(F, rep)
     log_arguments(F, rep)
     panic_is_not_success(ctx, rep)
+    shared_options_share_their_defaults(ctx, rep)
     function_table_writers_agree(F, rep)
     rep.assume("a character not compared against any constant by the reader behaves like the class representative 'x' (the reader touches "
                "characters only through comparisons with constants and char::is_whitespace)")
@@ -258,6 +259,40 @@ def log_arguments(F, rep):
                key="C04.log-arguments|summary")
     rep.floor("C04.log-arguments log statements in crate bytecode", n, 15)
 
+
+
+def shared_options_share_their_defaults(ctx, rep, rule="C04.cli-defaults"):
+    """`run FILE` and `compile FILE` + `execute FILE.mmm` are the same program run by the same interpreter only if the interpreter is set up the same
+    way: an option that several sub-commands offer under one name (`--stack-size`: each call of the program nests on the native stack, so the default
+    is the program's maximum call depth) has one default.  Read from the clap-derived builder (Subcommand::augment_subcommands): per `Arg::long(NAME)`,
+    the literal its builder chain hands to `default_value`."""
+    F = ctx.facts("default", ["mscript-bin"])
+    aug = [g for g in F.all_fns() if g.path.endswith("clap_builder::derive::Subcommand>::augment_subcommands")]
+    if not aug:
+        raise AnchorMissing("Subcommand::augment_subcommands of the CLI")
+    by_name = {}
+    for g in aug:
+        for c in g.calls():
+            if not mir.short(c.callee()).endswith("Arg::long") or c.dst is None:
+                continue
+            names = [x[1] for a in c.args[1:] for x in rules.literal_of(g, a) if x[0] == "str"]
+            if len(names) != 1:
+                continue
+            der = g.derived([c.dst["l"]], through_call=lambda cc, idx: True if 0 in idx else None)
+            for d in g.calls():
+                if mir.short(d.callee()).endswith("Arg::default_value") and op_local(d.args[0]) in der:
+                    lits = [x[1] for a in d.args[1:] for x in rules.literal_of(g, a) if x[0] == "str"]
+                    by_name.setdefault(names[0], []).append((lits[0] if len(lits) == 1 else None, d.span, g))
+    shared = {k: v for k, v in by_name.items() if len(v) >= 2}
+    rep.floor(rule + " options offered by several sub-commands", len(shared), 2)
+    if "stack-size" not in shared:
+        raise AnchorMissing("--stack-size of run and execute")
+    for name, v in sorted(shared.items()):
+        vals = sorted({str(x[0]) for x in v})
+        st = "undecided" if any(x[0] is None for x in v) else ("ok" if len(vals) == 1 else "violated")
+        rep.ob(rule, "--%s has one default in the %d sub-commands that offer it" % (name, len(v)), st,
+               "" if st == "ok" else ("defaults %s: a program between the two limits (a recursion of that depth) finishes under one command and aborts under the other" % vals),
+               v[0][1], fn=v[0][2].path, key="%s|%s" % (rule, name))
 
 
 def panic_is_not_success(ctx, rep):
